@@ -60,6 +60,8 @@ type c14Run struct {
 	cache   map[string]cli.Result
 	sh      *explore.Shard
 	baseCfg string
+	// env: additional environment of the next runs (command-scope configuration)
+	env []string
 }
 
 func (c *c14Run) setConfig(entries []mrepo.ConfigEntry) {
@@ -68,7 +70,7 @@ func (c *c14Run) setConfig(entries []mrepo.ConfigEntry) {
 
 func (c *c14Run) run(args ...string) cli.Result {
 	c.sh.C.Evals++
-	return cli.Run(c.gd, "", nil, 90*time.Second, args...)
+	return cli.Run(c.gd, "", c.env, 90*time.Second, args...)
 }
 
 // canonical: the run with every setting spelled out and no sizer.* configuration.
@@ -209,6 +211,17 @@ func c14Worker(sh *explore.Shard) {
 					if d := observe(got, want); d != "" {
 						mk("precedence", fmt.Sprintf("%s: effective value should be %q: %s", name, eff, d), args, cfg)
 					}
+					// the same setting arriving through the command scope of the caller's
+					// environment (GIT_CONFIG_COUNT/KEY/VALUE) instead of a file
+					if len(seq) == 0 && len(cv) == 1 && cv[0] != "\x00novalue" && keySpelling == cfgKey {
+						run.setConfig(nil)
+						run.env = []string{"GIT_CONFIG_COUNT=1", "GIT_CONFIG_KEY_0=" + cfgKey, "GIT_CONFIG_VALUE_0=" + cv[0]}
+						got2 := run.run(args...)
+						run.env = nil
+						if d := observe(got2, want); d != "" {
+							mk("precedence", fmt.Sprintf("%s given through GIT_CONFIG_COUNT in the environment: effective value should be %q: %s", name, eff, d), args, cfg)
+						}
+					}
 					if idx%97 == 3 {
 						sh.C.Sample(5, map[string]any{"family": name, "config": fmt.Sprint(cfg), "args": args, "effective": eff})
 					}
@@ -284,6 +297,10 @@ func c14Worker(sh *explore.Shard) {
 		{{"--verbose"}, {"--threshold=0"}}, {{"-v"}, {"--threshold=0"}}, {{"--critical"}, {"--threshold=30"}}, {{"--no-verbose"}, {"--threshold=1"}},
 		{{"-j"}, {"--json"}}, {{"-j", "--json-version=2"}, {"--json", "--json-version=2"}},
 		{{"--include-regexp", "refs/tags/.*"}, {"--include", "/refs/tags/.*/"}},
+		// a regexp without metacharacters is still a whole-name match, not a prefix
+		{{"--include-regexp", "refs/heads"}, {"--include", "/refs/heads/"}},
+		{{"--exclude-regexp", "refs/tags"}, {"--exclude", "/refs/tags/"}},
+		{{"--include-regexp", "refs/heads/main"}, {"--include", "/refs/heads/main/"}},
 		{{"--exclude-regexp", "refs/heads/release/.*"}, {"--exclude", "/refs/heads/release/.*/"}},
 		{{"--include-regexp", "refs/(heads|tags)/release/.*"}, {"--include", "/refs/(heads|tags)/release/.*/"}},
 	}
@@ -339,6 +356,6 @@ func tailBytes(b []byte, n int) string {
 
 func init() {
 	Registry["C14"] = &Check{Level: "exploration", Worker: c14Worker, QuickBudget: 80 * time.Second, ThoroughBudget: 12 * time.Minute,
-		Rule:        "real binary + real git on a materialised repository whose metrics sit in every threshold band; per option family the full product (gitconfig value: absent/valid/invalid/multi-valued, two key spellings) x (every option sequence of length <=2 quick / <=3 thorough over the family's option alphabet; the threshold family always up to length 3 for the absent and 0 configuration); expected = byte-identical stdout and exit status of the canonical run with the effective value spelled out (effective = last option of the family, else config, else default; invalid config with no option = clean error); progress observed on stderr; 21 documented equivalent-spelling pairs x 5 contexts must give identical stdout, exit status and --show-refs marks. non-trivial = every case (all involve a config/option combination)",
+		Rule:        "real binary + real git on a materialised repository whose metrics sit in every threshold band; per option family the full product (gitconfig value: absent/valid/invalid/multi-valued, two key spellings) x (every option sequence of length <=2 quick / <=3 thorough over the family's option alphabet; the threshold family always up to length 3 for the absent and 0 configuration); expected = byte-identical stdout and exit status of the canonical run with the effective value spelled out (effective = last option of the family, else config, else default; invalid config with no option = clean error); progress observed on stderr; every single-valued setting also given through GIT_CONFIG_COUNT in the caller's environment instead of a file; 24 documented equivalent-spelling pairs x 5 contexts must give identical stdout, exit status and --show-refs marks. non-trivial = every case (all involve a config/option combination)",
 		Assumptions: []string{"git 2.39.5 interprets the configuration file", "the canonical run (all settings spelled out, no sizer.* configuration) defines what a value means; C11/C08 own the content of a report"}}
 }
